@@ -102,6 +102,8 @@ pub struct Inode {
     /// (op seq, synced length after the op)
     pub syncs: Vec<(u64, usize)>,
     pub created_seq: u64,
+    /// created by `atomic_write` (a rename of a synced temporary file)
+    pub atomic: bool,
 }
 
 #[derive(Clone, Debug)]
@@ -283,7 +285,7 @@ impl State {
     }
 
     fn new_inode(&mut self, seq: u64) -> InodeId {
-        self.inodes.push(Inode { data: vec![], appends: vec![], syncs: vec![], created_seq: seq });
+        self.inodes.push(Inode { data: vec![], appends: vec![], syncs: vec![], created_seq: seq, atomic: false });
         self.inodes.len() - 1
     }
 }
@@ -299,6 +301,12 @@ pub enum TailMode {
     Maximal,
     /// seeded: a prefix of the un-synced namespace ops, each un-synced tail lost / cut / present
     Random(u64),
+    /// un-synced atomic replacements (renames) applied, un-synced plain creations and unlinks not;
+    /// un-synced data lost
+    RenamesOnly,
+    /// seeded: an arbitrary subset of the un-synced namespace ops (each applied or not, in issue
+    /// order), each un-synced tail lost / cut / present
+    Subset(u64),
 }
 
 impl SimDir {
@@ -408,6 +416,7 @@ impl SimDir {
                 return Err(sim_err("atomic_write"));
             }
             let id = st.new_inode(seq);
+            st.inodes[id].atomic = true;
             st.inodes[id].data = data.to_vec();
             st.inodes[id].appends.push((seq, data.len()));
             st.inodes[id].syncs.push((seq, data.len()));
@@ -428,7 +437,7 @@ fn image_at(s: &State, k: u64, mode: TailMode) -> Image {
     let durable_upto: u64 = s.dir_syncs.iter().cloned().filter(|q| *q < k).max().map(|q| q + 0).unwrap_or(0);
     let has_sync = s.dir_syncs.iter().any(|q| *q < k);
     let mut rng = match mode {
-        TailMode::Random(seed) => Some(Rng::new(seed)),
+        TailMode::Random(seed) | TailMode::Subset(seed) => Some(Rng::new(seed)),
         _ => None,
     };
     let pending: Vec<&(u64, NsOp)> = s
@@ -438,7 +447,7 @@ fn image_at(s: &State, k: u64, mode: TailMode) -> Image {
         .collect();
     let cut = match mode {
         TailMode::Minimal => 0,
-        TailMode::Maximal => pending.len(),
+        TailMode::Maximal | TailMode::RenamesOnly | TailMode::Subset(_) => pending.len(),
         TailMode::Random(_) => rng.as_mut().unwrap().below(pending.len() as u64 + 1) as usize,
     };
     let mut ns: BTreeMap<PathBuf, InodeId> = BTreeMap::new();
@@ -456,7 +465,14 @@ fn image_at(s: &State, k: u64, mode: TailMode) -> Image {
         }
     }
     for (_, op) in pending.iter().take(cut) {
-        apply(&mut ns, op);
+        let keep = match mode {
+            TailMode::RenamesOnly => matches!(op, NsOp::Link(_, i) if s.inodes[*i].atomic),
+            TailMode::Subset(_) => rng.as_mut().unwrap().chance(1, 2),
+            _ => true,
+        };
+        if keep {
+            apply(&mut ns, op);
+        }
     }
     let mut img = Image::new();
     for (p, id) in ns {
@@ -467,9 +483,9 @@ fn image_at(s: &State, k: u64, mode: TailMode) -> Image {
         let len = ino.appends.iter().filter(|(q, _)| *q < k).map(|(_, l)| *l).last().unwrap_or(0);
         let synced = ino.syncs.iter().filter(|(q, _)| *q < k).map(|(_, l)| *l).last().unwrap_or(0);
         let keep = match mode {
-            TailMode::Minimal => synced,
+            TailMode::Minimal | TailMode::RenamesOnly => synced,
             TailMode::Maximal => len,
-            TailMode::Random(_) => {
+            TailMode::Random(_) | TailMode::Subset(_) => {
                 let r = rng.as_mut().unwrap();
                 if len <= synced {
                     synced
